@@ -22,7 +22,7 @@ FOCUS_SETS = [
 class DocCheck(core.Check):
     """base: cases are parameters of the deterministic document generator"""
     which = 'c03'
-    n_quick = 6000
+    n_quick = 9600
     n_thorough = 150000
 
     def setup(self, tier):
@@ -45,7 +45,9 @@ class DocCheck(core.Check):
             yield dict(docseed=rnd.getrandbits(48), lang=rnd.choice(['en', 'en', 'en', 'de', 'ru']),
                        focus=focus, size=rnd.randint(2, 9),
                        depth=rnd.choice([3, 5, 5, 7] if tier == 'quick' else [3, 5, 7, 9, 12]),
-                       gls=rnd.random() < .3, route=rnd.choice(['doc', 'doc', 'doc', 'defs']),
+                       gls=rnd.random() < .3, route=rnd.choice(['doc', 'doc', 'doc', 'defs', 'ltinput']),
+                       ml=rnd.random() < .15, seqs=rnd.random() < .15,
+                       dcls=rnd.choice(['', '', '', 'article', 'scrartcl', 'book']),
                        endp=rnd.choice([0, 1, 2, 3]), pack=pack)
 
     def build(self, case):
@@ -57,10 +59,41 @@ class DocCheck(core.Check):
         return d
 
     def run_doc(self, case):
+        """-> doc, plain, map (in coordinates of the complete generated source), stderr, alignment.
+        The preamble (user macro definitions) is supplied by one of three routes: in the document, through the
+        definitions option, or in a file read by \\LTinput; 1 in 7 documents run in multi-language mode (no
+        language commands: the single part must equal the single-language result)"""
         d = self.build(case)
         opts = dict(lang=case['lang'], pack=d.pack)
+        route = case.get('route', 'doc')
         src = d.src
-        (t, p), err = tex.run(src, **opts)
+        shift = 0
+        if route == 'defs':
+            opts['defs'] = d.src[:d.body_start]
+            src = d.src[d.body_start:]
+            shift = d.body_start
+        elif route == 'ltinput':
+            fn = os.path.join(self.tmp, 'pre%d.tex' % (case['docseed'] % 7))
+            with open(fn, 'w', encoding='utf-8') as f:
+                f.write(d.src[:d.body_start])
+            pre = '\\LTinput{%s}\n' % fn
+            src = pre + d.src[d.body_start:]
+            shift = d.body_start - len(pre)
+        if case.get('seqs'):
+            opts['seqs'] = True
+        if case.get('dcls'):
+            opts['dcls'] = case['dcls']
+        ml = bool(case.get('ml'))
+        r, err = tex.run(src, ml=ml, **opts)
+        if ml:
+            parts = [p for lg in r for p in r[lg]]
+            t = ''.join(p[0] for p in parts)
+            p = [q for part in parts for q in part[1]]
+            if len(r) > 1:
+                err += 'multi-language mode: document without language commands split over %r\n' % sorted(r)
+        else:
+            t, p = r
+        p = [q + shift for q in p]
         a = align.align(d, t, p, case['lang'])
         return d, t, p, err, a
 
@@ -68,9 +101,13 @@ class DocCheck(core.Check):
         d, t, p, err, a = self.run_doc(case)
         cnt = {'kind_' + k: v for k, v in d.kinds.items()}
         cnt['documents'] = 1
+        cnt['route_' + case.get('route', 'doc')] = 1
+        if case.get('ml'):
+            cnt['ml_mode_documents'] = 1
         cnt['aligned_documents' if a['aligned'] else 'unaligned_documents'] = 1
         return self.verdict(case, d, t, p, err, a, cnt)
 
     def quotas(self, tier):
         q = {'kind_' + k: 20 for k in gdocs.ALL_KINDS}
+        q.update({'route_doc': 500, 'route_defs': 200, 'route_ltinput': 200, 'ml_mode_documents': 200})
         return q
